@@ -9,4 +9,5 @@ RULE = ("seeded histories of 20-200 list/set/hash commands over a 10-key pool pr
 
 
 def run(tier):
-    return modeldiff.run("C03", tier, "gen:gen_coll_cmd", RULE)
+    from . import expiry_mini
+    return modeldiff.run("C03", tier, "gen:gen_coll_cmd", RULE + "; plus collections with a TTL emptied element by element, re-created without TTL, read two sweeper passes after the old deadline", extra_fn=expiry_mini.collections_emptied_and_recreated)
